@@ -171,7 +171,7 @@ func c05History(seed int64, idx int, tier string) []seqrun.Step {
 	p := seqrun.Profile{
 		Steps: tierN(tier, 36, 60), Keys: keys, Lens: []int{14, 14, 5000}, MaxOpen: 3, TxBias: 45,
 		TagPrefix: fmt.Sprintf("h%d-", idx),
-		W:         map[string]int{"begin": 8, "set": 30, "delete": 6, "commit": 8, "rollback": 3, "reopen": 4, "collect": 2, "drain": 1, "create": 3, "setreader": 3, "emptykey": 3},
+		W:         map[string]int{"begin": 8, "set": 30, "delete": 6, "commit": 8, "rollback": 3, "reopen": 4, "collect": 2, "drain": 1, "create": 3, "setreader": 3, "emptykey": 3, "faultwrite": 2},
 	}
 	steps := seqrun.Generate(rng, p)
 	if idx%3 == 2 {
